@@ -74,12 +74,49 @@ func c15(c *core.Ctx) {
 					implCall = call
 					return true
 				})
+				// … or by a call of a helper of the package that returns only if the check passed (it panics otherwise)
+				resolve := func(v ssa.Value) ssa.Value { return v }
+				if !gImpl {
+					for _, h := range core.HelperCallsOf(regFn) {
+						if !core.MustPass(core.Entry(regFn), mu, func(in ssa.Instruction) bool { return in == ssa.Instruction(h.Call) }) {
+							continue
+						}
+						rets := core.Returns(h.Callee)
+						all := len(rets) > 0
+						var ic *ssa.Call
+						for _, r := range rets {
+							if !core.GuardedExactlyByAny(r, func(f core.Fact) bool {
+								if f.Op != token.ILLEGAL || f.Neg {
+									return false
+								}
+								call, ok := f.X.(*ssa.Call)
+								if !ok || !call.Call.IsInvoke() || call.Call.Method.Name() != "Implements" {
+									return false
+								}
+								ic = call
+								return true
+							}) {
+								all = false
+							}
+						}
+						if all && ic != nil {
+							gImpl, implCall = true, ic
+							bind := h.Bind
+							resolve = func(v ssa.Value) ssa.Value {
+								if a, ok := bind[v]; ok {
+									return a
+								}
+								return v
+							}
+						}
+					}
+				}
 				c.Check(gImpl, key+":type-checked", mu.Pos(), "dominated by handlerType.Implements(serviceInterface)", "a handler can be stored without the interface check having passed")
 				if implCall != nil {
 					// receiver: reflect.TypeOf(h); argument: reflect.TypeOf(desc.HandlerType).Elem()
 					okRecv := core.OriginIs(implCall.Call.Value, func(o ssa.Value) bool {
 						cr, _, ok := core.CallResult(o)
-						return ok && core.InfoOf(&cr.Call).Is("reflect.TypeOf") && core.Strip(cr.Call.Args[0]) == ssa.Value(hPar)
+						return ok && core.InfoOf(&cr.Call).Is("reflect.TypeOf") && resolve(core.Strip(cr.Call.Args[0])) == ssa.Value(hPar)
 					})
 					okArg := core.OriginIs(implCall.Call.Args[0], func(o ssa.Value) bool {
 						el, _, ok := core.CallResult(o)
@@ -92,7 +129,7 @@ func c15(c *core.Ctx) {
 								return false
 							}
 							base, f, isF := core.FieldOf(core.Strip(cr.Call.Args[0]))
-							return isF && f == "HandlerType" && base == ssa.Value(descPar)
+							return isF && f == "HandlerType" && resolve(base) == ssa.Value(descPar)
 						})
 					})
 					c.Check(okRecv && okArg, key+":type-check-operands", implCall.Pos(), "TypeOf(handler).Implements(TypeOf(desc.HandlerType).Elem())", "the interface check does not compare the handler's type with the element type of desc.HandlerType")
@@ -482,6 +519,17 @@ func c15ServiceInfo(c *core.Ctx, reg *types.Named) {
 		})
 	}
 	walk(decl.Body, "")
+	// a helper of the package that builds the method list is part of the function
+	fnsAll := []*ssa.Function{fn}
+	for _, h := range core.HelperCallsOf(fn) {
+		if h.Callee.Signature.Results().Len() != 1 || !strings.HasSuffix(core.TypeStr(h.Callee.Signature.Results().At(0).Type()), "grpc.MethodInfo") {
+			continue
+		}
+		if hd, hpk := p.FuncDecl(h.Callee); hd != nil && hpk == pk {
+			walk(hd.Body, "")
+			fnsAll = append(fnsAll, h.Callee)
+		}
+	}
 	var unary, stream *lit
 	for i := range mlits {
 		switch mlits[i].loopOver {
@@ -528,13 +576,16 @@ func c15ServiceInfo(c *core.Ctx, reg *types.Named) {
 	c.Check(okKey, key+":keyed-by-service-name", decl.Pos(), "result keyed by desc.ServiceName", "the result map is not keyed by desc.ServiceName")
 	// the appended slice is the one stored
 	okAppend := 0
-	core.Instrs(fn, func(in ssa.Instruction) {
-		if call, ok := in.(*ssa.Call); ok {
-			if b, isB := call.Call.Value.(*ssa.Builtin); isB && b.Name() == "append" && core.LoopOf(fn)[call.Block()] >= 0 {
-				okAppend++
+	for _, f := range fnsAll {
+		f := f
+		core.Instrs(f, func(in ssa.Instruction) {
+			if call, ok := in.(*ssa.Call); ok {
+				if b, isB := call.Call.Value.(*ssa.Builtin); isB && b.Name() == "append" && core.LoopOf(f)[call.Block()] >= 0 {
+					okAppend++
+				}
 			}
-		}
-	})
+		})
+	}
 	c.Check(okAppend == 2, key+":one-entry-per-element", decl.Pos(), "one append per element in each of the two loops", fmt.Sprintf("expected one append in the Methods loop and one in the Streams loop, found %d", okAppend))
 }
 
@@ -572,6 +623,7 @@ func c15MethodListFresh(c *core.Ctx, reg *types.Named) {
 		}
 		n++
 		bad, undec := "", ""
+		inHelper := false
 		seen := map[ssa.Value]bool{}
 		var walk func(v ssa.Value)
 		walk = func(v ssa.Value) {
@@ -583,6 +635,16 @@ func c15MethodListFresh(c *core.Ctx, reg *types.Named) {
 			case *ssa.Call:
 				if b, isB := x.Call.Value.(*ssa.Builtin); isB && b.Name() == "append" {
 					walk(x.Call.Args[0])
+					return
+				}
+				// built by a helper of the package: every return of the helper must be a list made in the helper
+				// (a fresh allocation per call)
+				if callee := x.Call.StaticCallee(); callee != nil && callee.Blocks != nil && callee.Pkg == fn.Pkg && callee != fn && !inHelper {
+					inHelper = true
+					for _, r := range core.Returns(callee) {
+						walk(r.Results[0])
+					}
+					inHelper = false
 					return
 				}
 				undec = "the list is the result of " + core.InfoOf(&x.Call).Full()
@@ -597,7 +659,7 @@ func c15MethodListFresh(c *core.Ctx, reg *types.Named) {
 			case *ssa.Slice:
 				bad = "the list is a re-slice of an existing slice (a scratch buffer reused across services)"
 			case *ssa.MakeSlice:
-				if core.LoopOf(fn)[x.Block()] < 0 {
+				if !inHelper && core.LoopOf(fn)[x.Block()] < 0 {
 					bad = "the list's backing array is allocated once, outside the service loop"
 				}
 			case *ssa.Const:
